@@ -404,9 +404,11 @@ def gen_cases(rng, tier):
     b['sensors'] = [s for s in b['sensors'] if s[1] != 'gnss']
     b['traj'] = [t for t in b['traj'] if t[1] != 'gnss0']
     del b['records']['gnss']
-    c = _mk(b, ['rec_wrongkind'], rng, '1.1', 'dir')
-    _add_row(c['inj'], 'records_gnss', _rec_fields('gnss', 5, 'cam0', ''))
-    cases.append(c)
+    for ver, mode in (('1.1', 'dir'), ('1.0', 'tar'), ('1.1', 'tar')):
+        c = _mk(copy.deepcopy(b), ['rec_wrongkind'], rng, ver, mode)
+        _add_row(c['inj'], 'records_gnss', _rec_fields('gnss', 5, 'cam0', ''))
+        _add_row(c['inj'], 'records_gnss', _rec_fields('gnss', 6, 'ghost_gnss', ''))
+        cases.append(c)
     # 6. random datasets, random class subsets
     n_rand = 140 if tier == 'quick' else 1400
     for i in range(n_rand):
